@@ -7,7 +7,8 @@ EXPLANATION = ('Structural termination/progress argument checked on every genera
                'successor (G4), a state records at most once with end in {offset, offset-1} (G10), Skip restarts at the root at the end of the item (G9c). On MIR, for every definition: token_start is '
                'written only by constructors/morph/clone/next/trivia (= token_end), next() resumes at the previous end, and Graph::new builds states only on the false edge of dfa.has_empty() while the '
                'true edge records EmptyMatch for every leaf of minimum length 0. Per generated program; "all definitions" is covered by the corpus plus template-shape coverage counters.'
-               ' Since the E5 engine: generated code == printed graph (G19) and graph ~ reference DFA (G20): end-of-input successors record late and have no continuation, no state continues into a dead reference state.')
+               ' Since the E5 engine: generated code == printed graph (G19) and graph ~ reference DFA (G20): end-of-input successors record late and have no continuation, no state continues into a dead reference state.'
+               ' Added in round 8: only the partial constructors put a lexer into prefix mode and morph/clone copy the mode (M-C07a, M-C14c) - a full-mode lexer that becomes a prefix lexer would stop before the end of the input.')
 
 
 def run(ctx, rep):
